@@ -190,18 +190,42 @@ Definition tv_eqb (a b : tv) : bool :=
   | _, _ => false
   end.
 
-(* A miniature of ReferenceListColumn on ints: convert wraps an int into a one-element list, the element
-   conversion (Reference.do_convert) raises OverflowError for ints that are not "short" (>= 2^31), and the
-   alt-text is then str([n]).  `set` (_clean_up_value) parses a string "[n]" of positive ints back into a
-   list.  The alt-text is represented by TStr of the digits' marker: TStr [91; n; 93] stands for "[n]". *)
+(* A miniature of ReferenceListColumn on ints and strings.  convert wraps a non-zero int into a one-element list;
+   the element conversion (Reference.do_convert) raises OverflowError for ints that are not "short" (>= 2^31), and
+   the alt-text is then str([n]); a string "[n]" with a positive short n is parsed into [n].  The string "[n]" is
+   represented by TStr [91; n; 93].  `set` (_clean_up_value) parses a string "[n]" back into a list:
+     mini_reflist_set_old   as before commit 31c0c3e: for every positive n -- it re-parsed the alt-text of a failed
+                            conversion;
+     mini_reflist_set       as in the current source: only for short ints. *)
+Definition short (n : Z) : bool := (n <? 2147483648)%Z.
+Definition is_bracketed (s : str) : option Z :=
+  match s with
+  | [a; n; c] => if ((a =? 91) && (c =? 93))%Z then Some n else None
+  | _ => None
+  end.
 Definition mini_reflist_convert (v : tv) : tv :=
   match v with
   | TInt n => if (n =? 0)%Z then TNone
-              else if (n <? 2147483648)%Z then TList [n] else TStr [91%Z; n; 93%Z]
+              else if short n then TList [n] else TStr [91%Z; n; 93%Z]
+  | TStr s => match is_bracketed s with
+              | Some n => if ((0 <? n)%Z && short n)%bool then TList [n] else v
+              | None => v
+              end
+  | x => x
+  end.
+Definition mini_reflist_set_old (v : tv) : tv :=
+  match v with
+  | TStr s => match is_bracketed s with
+              | Some n => if (0 <? n)%Z then TList [n] else v
+              | None => v
+              end
   | x => x
   end.
 Definition mini_reflist_set (v : tv) : tv :=
   match v with
-  | TStr [91%Z; n; 93%Z] => if (0 <? n)%Z then TList [n] else v
+  | TStr s => match is_bracketed s with
+              | Some n => if ((0 <? n)%Z && short n)%bool then TList [n] else v
+              | None => v
+              end
   | x => x
   end.
